@@ -154,7 +154,7 @@ func lockLeakInterleaved(mem *MemoryCache[vmeta], file *FileCache[vmeta]) {
 	} else {
 		cfg = file.janitor.cfg
 	}
-	vInterpose(func() {
+	vSecond(func() {
 		switch kind {
 		case 0:
 			c.Cache(k2, &symReader{data: []byte{9}, failAt: -1}, now.Add(time.Hour), vmeta{Ver: 9})
@@ -171,7 +171,7 @@ func lockLeakInterleaved(mem *MemoryCache[vmeta], file *FileCache[vmeta]) {
 			cfg.Cache.MaxCacheSize.CommitStaged()
 			vRunPending()
 		}
-	}, vParam("interpose", 1))
+	})
 	switch symChoice(4) {
 	case 0:
 		if mem != nil {
@@ -194,8 +194,7 @@ func lockLeakInterleaved(mem *MemoryCache[vmeta], file *FileCache[vmeta]) {
 		c.Delete(vKeys[symChoice(nk)])
 		vReach("delete")
 	}
-	vInterpose(nil, 0)
-	if vInterposed() > 0 {
+	if vSecondDone() {
 		vReach("second-thread-ran")
 	}
 	vAssert(vLocksLeaked() == 0 && vThread2LocksLeaked() == 0, "c14.lock-leaked")
@@ -280,3 +279,76 @@ func HarnessStopNeverBlocks() {
 	again := vPanics(func() { blocked = vBlocks(destroy) })
 	vAssert(!again && !blocked, "c14.second-destroy-panics-or-blocks")
 }
+
+// HarnessConcurrentOps (C14 B): two cache operations run CONCURRENTLY - every interleaving at
+// lock and file-system boundaries with a bounded number of switches between the two threads
+// (not just "the second one runs atomically somewhere").  Neither thread ends up waiting for
+// ever, nothing stays locked, and every key can be read and written afterwards.
+func concurrentOps(mem *MemoryCache[vmeta], file *FileCache[vmeta]) {
+	var c cacheUnderTest = mem
+	if mem == nil {
+		c = file
+	}
+	vClockFreeze(true)
+	now := time.Now()
+	for i := 0; i < 2; i++ {
+		exp := now.Add(time.Hour)
+		if i == 0 && symChoice(2) == 1 {
+			exp = now.Add(-time.Second)
+		}
+		c.Cache(vKeys[i], &symReader{data: []byte{byte(i), 1}, failAt: -1}, exp, vmeta{Ver: int64(i)})
+	}
+	op := func(kind int, k CacheKey, ver int64) {
+		switch kind {
+		case 0:
+			c.Cache(k, &symReader{data: []byte{9, 9}, failAt: -1, chunk: 1}, now.Add(time.Hour), vmeta{Ver: ver})
+		case 1:
+			c.Delete(k)
+		case 2:
+			c.Get(k)
+		case 3:
+			if mem != nil {
+				mem.janitor.cleanExpiredEntries()
+			} else {
+				file.janitor.cleanExpiredEntries()
+			}
+		default:
+			if mem != nil {
+				mem.janitor.evict(1)
+			} else {
+				file.janitor.evict(1)
+			}
+		}
+	}
+	k2 := vKeys[symChoice(2)]
+	kind2 := symChoice(3)
+	vConcurrent(func() { op(kind2, k2, 8) }, vParam("switches", 2))
+	op(symChoice(5), vKeys[0], 5)
+	vJoin()
+	if vInterposed() > 0 {
+		vReach("overlapped")
+	}
+	vAssert(vLocksLeaked() == 0, "c14.lock-leaked")
+	for i := 0; i < 2; i++ {
+		c.Get(vKeys[i])
+		c.Cache(vKeys[i], &symReader{data: []byte{7}, failAt: -1}, now.Add(time.Hour), vmeta{Ver: 7})
+	}
+	vReach("still-live")
+}
+
+func concShards() int {
+	if vParam("tiny", 0) == 1 {
+		return 1 // quick smoke: one shard (every pair of keys collides), limit far away
+	}
+	return symRange(1, 2)
+}
+
+func concLimit() int64 {
+	if vParam("tiny", 0) == 1 {
+		return 1 << 30
+	}
+	return leakLimit()
+}
+
+func HarnessConcurrentOpsMem()  { concurrentOps(newMem(concShards(), concLimit()), nil) }
+func HarnessConcurrentOpsFile() { concurrentOps(nil, newFile(concShards(), concLimit())) }
